@@ -224,7 +224,7 @@ def gen_case(rng, frontend=None):
 
 
 def check(ctx, rep, cases):
-    ans = ctx.driver.query([serverlib.model_query(**c) for c in cases])
+    ans = serverlib.ask_model(ctx, cases)
     for c, a in zip(cases, ans):
         real, before, per_step = serverlib.run_real_steps(c)
         outs, escs, dumps, alive, control = real
